@@ -214,7 +214,8 @@ package scipipe
 //@   props C09
 //@   noreturn
 //@ func (*BaseProcess).Name(p) (res)
-//@   props C09
+//@   props C09 C15
+//@   deterministic structural
 //@   ensures def: res == p.name
 //@ func (*Task).Auditf(t, msg, parts)
 //@   props C01
@@ -863,6 +864,28 @@ package scipipe
 //@   loop 1 invariant parsed: forall j int :: 0 <= j && j < len(placeHolderInfos) ==> placeHolderInfos[j] != nil && placeHolderInfos[j].match == placeHolderMatches[j][0] && placeHolderInfos[j].portName == splitOf(placeHolderMatches[j][2], "|")[0] && (forall k int :: 0 <= k && k < len(placeHolderInfos[j].modifiers) ==> placeHolderInfos[j].modifiers[k] == splitOf(placeHolderMatches[j][2], "|")[k + 1])
 //@   loop 2 invariant range[C15,C18]: 0 <= $i && $i <= len(subStreamIPs[portName]) && len(paths) == $i
 //@   loop 2 invariant joined[C15,C18]: forall j int :: 0 <= j && j < $i ==> paths[j] == prependOf(applyMods(subStreamIPs[portName][j].path, placeHolder.modifiers))
+
+// process.go initDefaultPathFuncs (C15): the default output name. It is a function of the task's input names, process
+// name, parameters, tags, the port name and the extension only (structural determinism scan: no map iteration order,
+// time or randomness can reach the result), and it is exactly
+//   base(in_1). ... .base(in_n).sanitized-process-name.p_1_v_1. ... .t_1_w_1. ... .port[.ext]
+// with inputs, parameters and tags each in the order of their sorted names.
+//@ define defaultNameHead(pcs seq[string], t *Task, ins seq[string]) bool = forall j int :: 0 <= j && j < len(ins) ==> pcs[j] == baseOf(t.InIPs[ins[j]].path)
+//@ define defaultNamePairs(pcs seq[string], off int, keys seq[string], n int, m map[string]string) bool = forall j int :: 0 <= j && j < n ==> pcs[off + j] == keys[j] + "_" + m[keys[j]]
+//@ func (*Process).initDefaultPathFuncs$1(t) (res)
+//@   props C15
+//@   deterministic structural
+//@   atcall strings.Join joined-with-dots[C15]: $arg1 == "."
+//@   atcall strings.Join pieces-in-documented-order[C15]: len($arg0) == len($range0) + 1 + len($range1) + len($range2) + 1 + ite(p.PortInfo[outName].extension != "", 1, 0) && defaultNameHead($arg0, t, $range0) && $arg0[len($range0)] == reReplaceAll("[^a-z0-9_\\-\\.]+", toLower(t.Process.name), "_") && defaultNamePairs($arg0, len($range0) + 1, $range1, len($range1), t.Params) && defaultNamePairs($arg0, len($range0) + 1 + len($range1), $range2, len($range2), t.Tags) && $arg0[len($range0) + 1 + len($range1) + len($range2)] == outName && (p.PortInfo[outName].extension != "" ==> $arg0[len($range0) + 2 + len($range1) + len($range2)] == p.PortInfo[outName].extension)
+//@   atcall strings.Join names-are-the-sorted-keys[C15]: sortedKeysOf($range0, dom(t.InIPs)) && sortedKeysOf($range1, dom(t.Params)) && sortedKeysOf($range2, dom(t.Tags))
+//@   loop 0 invariant range: 0 <= $i && $i <= len($range) && len(pathPcs) == $i && t == old(t) && sortedKeysOf($range, dom(t.InIPs))
+//@   loop 0 invariant input-basenames: forall j int :: 0 <= j && j < $i ==> pathPcs[j] == baseOf(t.InIPs[$range[j]].path)
+//@   loop 1 invariant range: 0 <= $i && $i <= len($range) && len(pathPcs) == len($range0) + 1 + $i && t == old(t) && sortedKeysOf($range0, dom(t.InIPs)) && sortedKeysOf($range, dom(t.Params))
+//@   loop 1 invariant head-kept: defaultNameHead(pathPcs, t, $range0) && pathPcs[len($range0)] == reReplaceAll("[^a-z0-9_\\-\\.]+", toLower(t.Process.name), "_")
+//@   loop 1 invariant params: defaultNamePairs(pathPcs, len($range0) + 1, $range, $i, t.Params)
+//@   loop 2 invariant range: 0 <= $i && $i <= len($range) && len(pathPcs) == len($range0) + 1 + len($range1) + $i && t == old(t) && sortedKeysOf($range0, dom(t.InIPs)) && sortedKeysOf($range1, dom(t.Params)) && sortedKeysOf($range, dom(t.Tags))
+//@   loop 2 invariant head-kept: defaultNameHead(pathPcs, t, $range0) && pathPcs[len($range0)] == reReplaceAll("[^a-z0-9_\\-\\.]+", toLower(t.Process.name), "_") && defaultNamePairs(pathPcs, len($range0) + 1, $range1, len($range1), t.Params)
+//@   loop 2 invariant tags: defaultNamePairs(pathPcs, len($range0) + 1 + len($range1), $range, $i, t.Tags)
 
 // process.go SetOut (C15): the path function built from an output-path pattern. Same shape as formatCommand: one
 // substitution site per placeholder found, and at that site the replacement is the documented value for the type.
